@@ -2,7 +2,8 @@
 # MANIFEST.setup_cmd: regenerate coq/gen from /repo, build every model and lemma file (full .vo).
 set -e
 cd "$(dirname "$0")"
-export PYTHONHASHSEED=0 TZ=UTC PYTHONPATH=/repo/py34 PYTHONDONTWRITEBYTECODE=1
+export VERIF_REPO="${VERIF_REPO:-/repo}"
+export PYTHONHASHSEED=0 TZ=UTC PYTHONPATH="$VERIF_REPO/py34" PYTHONDONTWRITEBYTECODE=1
 ulimit -s unlimited 2>/dev/null || true
 mkdir -p work evidence replays coq/gen
 /venv/bin/python - <<'PY'
